@@ -1,6 +1,7 @@
 import RtenVerif.Lemmas.SymList
 
 /-! `canonicalize` preserves evaluation (C11.T4). -/
+set_option linter.unusedSimpArgs false
 namespace RtenVerif.Sym
 
 def Op.idem : Op → Bool
@@ -11,7 +12,7 @@ theorem idem_ac {o : Op} (h : o.idem = true) : o.ac = true := by
   cases o <;> simp [Op.idem] at h <;> rfl
 
 theorem opF_idem {o : Op} (h : o.idem = true) (x : Int) : opF o x x = x := by
-  cases o <;> simp [Op.idem] at h <;> simp [opF]
+  cases o <;> simp [Op.idem] at h <;> simp [opF, bcastI]
 
 theorem removeAdjEq_agg {σ : Env} {o : Op} (h : o.idem = true) :
     ∀ {ts : List SymExpr} {vs : List Int}, evL σ ts = some vs →
@@ -72,7 +73,7 @@ theorem aggO_add (vs : List Int) : aggO .add vs = if vs = [] then none else some
     simp only [aggO, ih]
     cases vs with
     | nil => simp [sumL]
-    | cons w ws => simp [sumL, opF]
+    | cons w ws => simp [sumL, opF, bcastI]
 
 theorem removeAdjOppF_sum {σ : Env} :
     ∀ (n : Nat) {ts : List SymExpr} {vs : List Int}, evL σ ts = some vs →
@@ -191,7 +192,7 @@ theorem canonF_sound (σ : Env) :
       obtain ⟨x, y, hx, hy, -, rfl⟩ := hv
       apply ih
       rw [ev_bin_ok']
-      refine ⟨x, -y, ih a x hx, ?_, by simp, by simp [opF]; omega⟩
+      refine ⟨x, -y, ih a x hx, ?_, by simp, by simp [opF, bcastI]; omega⟩
       rw [ev_neg_ok]; exact ⟨y, ih b y hy, rfl⟩
     | .bin .div a b, hv =>
       simp only [canonF]
